@@ -190,8 +190,31 @@ def run(repo: Repo, L: Ledger, tier: str):
     ok2, why2 = False, "BuildAssembly is not constructed with a default_gap"
     if len(ctors) == 1:
         g = kw(ctors[0], "default_gap")
+        if g is not None and not (isinstance(g, ast.Call) and dotted(g.func) == "Gap"):
+            raise AnalysisError(f"{cli.short}: the join gap is computed by '{norm(g)[:50]}', not written as Gap(...): form not understood")
         if isinstance(g, ast.Call) and dotted(g.func) == "Gap":
-            vals = [try_fold(a, default="?") for a in g.args] + [try_fold(k.value, default="?") for k in g.keywords]
+            # arguments may be command line options: their click defaults are what a plain invocation uses
+            from ..finite import module_consts
+
+            consts = module_consts(cli.module)
+            opt_defaults = {}
+            for d_ in cli.node.decorator_list:
+                if isinstance(d_, ast.Call) and (dotted(d_.func) or "").endswith(("option", "argument")):
+                    names_ = [try_fold(a_, default=None) for a_ in d_.args]
+                    long_ = next((n_ for n_ in names_ if isinstance(n_, str) and n_.startswith("--")), None)
+                    pname_ = next((n_ for n_ in names_ if isinstance(n_, str) and not n_.startswith("-")), None) or (long_[2:].split("/")[0].replace("-", "_") if long_ else None)
+                    dv_ = kw(d_, "default")
+                    if pname_ and dv_ is not None:
+                        opt_defaults[pname_] = try_fold(dv_, env=dict(consts), default="?")
+
+            def val_of(a):
+                if isinstance(a, ast.Name) and a.id in opt_defaults:
+                    return opt_defaults[a.id]
+                return try_fold(a, env=dict(consts), default="?")
+
+            vals = [val_of(a) for a in g.args] + [val_of(k.value) for k in g.keywords]
+            if "?" in vals:
+                raise AnalysisError(f"{cli.short}: the join gap '{norm(g)[:50]}' does not fold to constants (option defaults followed): form not understood")
             ok2 = vals == [200, "scaffold"]
             why2 = f"join gap configured as Gap{tuple(vals)}, documented join gap is 200 bp of type scaffold"
     L.check(ok2, "R2", cli.short, "Gap(200, 'scaffold')", why2, cli.loc())
